@@ -171,8 +171,9 @@ class Deseasonalizer(_SeriesToSeriesTransformer):
         self : an instance of self
         """
         self.check_is_fitted()
-        z = check_series(Z, enforce_univariate=True)
-        self._set_y_index(z)
+        check_series(Z, enforce_univariate=True)
+        # the seasonal components stay anchored at the start of the training
+        # series, so that the phase of later data is not shifted
         return self
 
 
